@@ -26,7 +26,7 @@ CHECKS = {
     'C06': ('reference-model oracle: theta-weighted R-cost per branch and call site, bounds over pure selections, hard cost vs exported network',
             'Held on every explored (network, coefficients, mode, metric, full_cost) case, incl. blocks invoked twice at the same / at different resolutions and seed networks wrapped a second time at another input resolution (the different-resolution defect was repaired, 68d733d).',
             'theta read after the forward; 1e-5 relative', '5/C06'),
-    'C07': ('differential oracle vs a deep copy of the seed, training-flag snapshots, SHA-256 of the user model state_dict, immediate-export architecture comparison',
+    'C07': ('differential oracle vs a deep copy of the seed, training-flag snapshots, SHA-256 of the user model state_dict, immediate-export architecture and function comparison',
             'Held on every explored PIT / MPS / SuperNet import case (fold on/off, train/eval hand-over, user-placed layers, identical-copy and hard-selected branches).',
             'user object .training flag not asserted (DESIGN sec. 7); unfused import compared bit-exactly', '5/C07'),
     'C08': ('invariant hooks on live state after every parameter assignment + export/forward/shape oracle + in-situ _time_mask contract; exhaustive K 1..12 time-mask sweep',
@@ -56,10 +56,10 @@ CHECKS = {
     'C16': ('direct calls of every registered cost function on grid sweeps with finiteness / sign / monotonicity / identity / rejection oracles; helper exactness on integer pairs',
             'Quick: strided grids (every tile boundary +-1); thorough: full grids (channels 1..130, kernels, output sizes 1..33, bits), fractional channel counts with gradients, all helpers, rejection probes.',
             'functions called directly on specs satisfying their own pattern', '5/C16'),
-    'C17': ('observation-snapshot oracle across save/load into a freshly configured wrapper, incl. real two-process crash (os._exit) / restart round trips',
+    'C17': ('observation-snapshot oracle (incl. an as-is first forward straight after load_state_dict) across save/load into a freshly configured wrapper, incl. real two-process crash (os._exit) / restart round trips',
             'Held on every explored checkpoint (k 0..5 steps, option changes, train/eval) for PIT / MPS / SuperNet, in-process and across a real process crash.',
             'configuration re-applied through the public API; same snapshot call on both sides', '5/C17'),
-    'C18': ('twin-model oracle over observer-call sequences (all sequences up to length 2/3 + sampled longer ones), exports pairwise identical, search continues bit-identically',
+    'C18': ('twin-model oracle over observer-call sequences (all sequences up to length 2/3 + sampled longer ones) incl. as-is cost value / differentiability / gradient, exports pairwise identical, search continues bit-identically',
             'Held on every explored sequence over {export, export(add_bn=False), summary, cost, get_cost, spec switch, forward} for the three methods in train and eval mode.',
             'Gumbel forwards seeded on both twins; as-is gradient comparison one-sided; per-channel MPS export (documented crash) not driven', '5/C18'),
     'C19': ('float64 reference R-duccio vs the real regularizers on stub and real models; effective strength recovered by differentiation; complete (epoch, n_epochs) grid',
@@ -107,7 +107,7 @@ def main():
             'add_only': True,
         },
         'engines': [{'name': 'vf', 'path': '/verif/vf', 'serves_properties': sorted(CHECKS),
-                     'kind_free_text': 'runtime monitoring harness: seeded workload generators, reference-model oracles, in-situ contracts on the real functions, sharded subprocess workers, known-finding classifier'}],
+                     'kind_free_text': 'runtime monitoring harness: seeded workload generators (program grammars, call histories, neutral prefixes), reference-model oracles, in-situ contracts on the real functions, sharded subprocess workers, known-finding classifier with mechanism predicates'}],
         'checks': checks,
         'not_applicable': na,
         'notes': 'fix: commits in /repo (genuine defects repaired, see known_findings.json): ' + '; '.join(commits),
